@@ -19,6 +19,7 @@ CALLS = {
 MODS = {
     'struct': 'vf.symstruct',
     'cbor2': 'vf.symcbor',
+    'binascii': 'vf.symbinascii',
 }
 # from X import name -> from Y import name
 FROMS = {
@@ -50,6 +51,15 @@ class T(ast.NodeTransformer):
             node.func = self._vf(CALLS[f.id])
         elif isinstance(f, ast.Attribute) and f.attr == 'join' and len(node.args) == 1 and not node.keywords:
             return ast.Call(func=self._vf('m_join'), args=[f.value, node.args[0]], keywords=[])
+        return node
+
+    def visit_Subscript(self, node):
+        self.generic_visit(node)
+        if isinstance(node.slice, ast.Slice) and isinstance(node.ctx, ast.Load):
+            sl = node.slice
+            none = ast.Constant(None)
+            return ast.Call(func=self._vf('sl'), args=[node.value, sl.lower or none, sl.upper or none, sl.step or none],
+                            keywords=[])
         return node
 
     def visit_Dict(self, node):
